@@ -6,12 +6,11 @@ From PV Require Import proofs.SccDecodeFacts proofs.SccLayoutFacts proofs.SccCom
 Import ListNotations.
 Open Scope Z_scope.
 
-Lemma spaced_b_sound : forall caps p, spaced_b p caps = true -> caps_spaced p caps.
+Lemma spaced_b_sound : forall caps p, spaced_b p caps = true -> spaced_w p caps.
 Proof.
   induction caps as [|c t IH]; intros p H; [exact I|]. cbn [spaced_b] in H.
-  apply andb_prop in H. destruct H as [H H4]. apply andb_prop in H. destruct H as [H H3]. apply andb_prop in H. destruct H as [H1 H2].
-  cbn [caps_spaced]. split; [apply Qle_bool_iff; exact H1|]. split; [apply Qle_bool_iff; exact H2|]. split; [|apply IH; exact H4].
-  destruct t as [|c' t']; [exact I|]. apply Qle_bool_iff. exact H3.
+  apply andb_prop in H. destruct H as [H H4]. apply andb_prop in H. destruct H as [H1 H2].
+  cbn [spaced_w]. split; [apply Qle_bool_iff; exact H1|]. split; [apply Qle_bool_iff; exact H2|apply IH; exact H4].
 Qed.
 
 Theorem caps_ok_b_sound : forall caps, caps_ok_b caps = true -> caps_ok caps.
